@@ -335,6 +335,6 @@ def replay(cases, envs, backend: str = "numpy", nproc: int = 16, batch: int = 12
                         bad.append({"kind": "value", "backend": backend, "text": text, "style": st, "point": p,
                                     "env": {k: resid.fmt(x) for k, x in envs[p].items()},
                                     "got": got[p], "want": float(want), "want_exact": resid.fmt(v),
-                                    "tokens": c[st], "case": {k: c[k] for k in ("tmin", "tfull", "bool", "vals")}, "envs": envs})
+                                    "tokens": c[st.replace("-compact", "")], "case": {k: c[k] for k in ("tmin", "tfull", "bool", "vals")}, "envs": envs})
     stats["wall_s"] = round(time.time() - t0, 1)
     return stats, bad
